@@ -350,7 +350,7 @@ Lemma fstep_sp n (V : valid_limit n) s b st :
   SP n b s (snd (fstep n s st)) (fst (fstep n s st)) /\
   length (f_active (fst (fstep n s st))) <= f_subscribed (fst (fstep n s st)).
 Proof.
-  intros G Hact. destruct st as [[i|e|]|id e]; cbn [fstep].
+  intros G Hact. destruct st as [[i|e|]|id e|]; cbn [fstep]; [| | | |cbn [fst snd]; split; [apply sp_nop, G|exact Hact]].
   - (* outer next *)
     destruct (f_alive s) eqn:Ha; [|cbn [fst snd]; split; [apply sp_dead_nop, Ha|exact Hact]].
     destruct (G Ha) as [[I1 I2 I3] Hb].
@@ -450,7 +450,13 @@ Proof.
       + rewrite down_ok_true_wf by exact A5. apply R3. reflexivity.
       + rewrite (R4 eq_refl), app_nil_r. apply down_ok_false_wf, A5.
     - intros Hd. rewrite (A6 Hd). cbn. destruct (f_alive s') eqn:Ea'; [specialize (A3 eq_refl); congruence|]. apply R4. reflexivity. }
-  cbn [frun]. destruct st as [e|id e].
+  cbn [frun]. destruct st as [e|id e|].
+  3: { (* unsubscribe: only markers follow *)
+       assert (Hm : forall a l, no_stuck (map FMark l) = true /\ peak_ok n a (map FMark l) = true /\ downstream (map FMark l) = []).
+       { intros a l. induction l as [|x l IHl]; cbn; auto. }
+       destruct (Hm b (seq (S j) (length r))) as (M1 & M2 & M3).
+       cbn [no_stuck forallb peak_ok downstream flat_map app andb]. fold (no_stuck (map FMark (seq (S j) (length r)))).
+       fold (downstream (map FMark (seq (S j) (length r)))). rewrite M1, M2, M3. repeat split; auto. }
   - destruct live.
     + specialize (Step (match e with ONext _ => true | _ => false end)).
       destruct (fstep n s (FOuter e)) as [s' out]. exact Step.
